@@ -269,6 +269,7 @@ Proof.
     - apply bind_ret_inv in Hci as ([[o c] r] & Hp & Hc). injection Hc as <-. cbn [fst snd].
       apply parse_content_info_parts in Hp as [_ I]. exact I.
     - injection Hci as <-. apply infix_refl. }
+  unfold Pkcs7.parse_signed_data in H.
   apply bind_ret_inv in H as ([sd x0] & H0 & H). apply E_inv in H0.
   apply bind_ret_inv in H as ([v sd1] & H1 & H). apply E_inv in H1.
   apply bind_ret_inv in H as ([dig sd2] & H2 & H). apply E_inv in H2.
